@@ -583,16 +583,30 @@ def kfr(karr):
     return [[Fraction(v) for v in row] for row in np.asarray(karr).tolist()]
 
 
-def run_apply(ctx, pend, a, dtype, karr, fname):
+def _backed(a, chunks):
+    if chunks is None:
+        return a
+    import dask.array as da
+    return da.from_array(a, chunks=tuple(chunks))
+
+
+def _np(x):
+    return x.compute() if hasattr(x, 'compute') else x
+
+
+def run_apply(ctx, pend, a, dtype, karr, fname, chunks=None):
     focal, conv, funcs = _impl()
     rows = to_rows(a)
     case = dict(fn='apply', func=fname, data=rows, dtype=dtype, kernel=np.asarray(karr).tolist(), kdtype=str(karr.dtype))
+    if chunks is not None:
+        case['dask_chunks'] = list(chunks)
+        ctx.count('apply/dask')
     ctx.case(case, nontrivial=any(not isnan(v) for r in rows for v in r))
     ctx.count('apply/%s/kernel=%dx%d' % (fname, karr.shape[0], karr.shape[1]))
     ctx.count('dtype/' + dtype)
     what = 'focal.apply(func=%s, kernel %dx%d)' % (fname, karr.shape[0], karr.shape[1])
     try:
-        out = to_rows(focal.apply(xr.DataArray(a, dims=['y', 'x']), karr, funcs[fname]).data)
+        out = to_rows(_np(focal.apply(xr.DataArray(_backed(a, chunks), dims=['y', 'x']), karr, funcs[fname]).data))
     except Exception as e:
         ctx.violation('oracle', '%s raised %s: %s' % (what, type(e).__name__, str(e)[:200]), case)
         return
@@ -601,16 +615,21 @@ def run_apply(ctx, pend, a, dtype, karr, fname):
     pend.append(('apply %s %s %s' % (fname, grid_line(D), grid_line(K)), [(out, mode_of(fname))], case, what))
 
 
-def run_stats(ctx, pend, a, dtype, karr, names):
+def run_stats(ctx, pend, a, dtype, karr, names, chunks=None):
     focal, conv, funcs = _impl()
     rows = to_rows(a)
     case = dict(fn='focal_stats', stats=names, data=rows, dtype=dtype, kernel=np.asarray(karr).tolist(), kdtype=str(karr.dtype))
+    if chunks is not None:
+        case['dask_chunks'] = list(chunks)
+        ctx.count('focal_stats/dask')
     ctx.case(case)
     ctx.count('focal_stats/n=%d/kernel=%dx%d' % (len(names or BUILTIN), karr.shape[0], karr.shape[1]))
     what = 'focal_stats(%s, kernel %dx%d)' % (','.join(names) if names is not None else 'default', karr.shape[0], karr.shape[1])
     try:
-        agg = xr.DataArray(a, dims=['y', 'x'])
+        agg = xr.DataArray(_backed(a, chunks), dims=['y', 'x'])
         res = focal.focal_stats(agg, karr) if names is None else focal.focal_stats(agg, karr, stats_funcs=list(names))
+        if chunks is not None:
+            res = res.compute()
     except Exception as e:
         ctx.violation('oracle', '%s raised %s: %s' % (what, type(e).__name__, str(e)[:200]), case)
         return
@@ -895,6 +914,16 @@ def run(ctx):
             for bits in range(1 << n):
                 k = np.array([(bits >> b) & 1 for b in range(n)], dtype='float64').reshape(shape)
                 run_apply(ctx, pend, a, dtype, k, 'u_idxsum')
+    # ---- the same statistics on Dask-backed rasters split into several chunks (non-square kernels, seams) ------
+    for i in range(18 if q else 300):
+        shape = [(1, 3), (3, 1), (1, 5), (5, 1), (3, 5), (5, 3), (3, 3), (1, 7), (5, 7)][i % 9]
+        a, dtype = gen_raster(rng, rows=rng.randint(6, 8), cols=rng.randint(7, 9), kind='distinct', nanp=0.05, dtype='float64')
+        k = np.array(gen_kernel01(rng, shape), dtype='float64')
+        chunks = (rng.choice([2, 3, 4]), rng.choice([2, 3, 4]))
+        if i % 3 == 2:
+            run_stats(ctx, pend, a, dtype, k, ['sum', 'max', 'min'], chunks=chunks)
+        else:
+            run_apply(ctx, pend, a, dtype, k, ['sum', 'u_idxsum'][i % 2], chunks=chunks)
     # ---- focal_stats -------------------------------------------------------------------------------------
     for i in range(24 if q else 600):
         a, dtype = gen_raster(rng, dtype='float64' if i % 3 else None)
@@ -997,9 +1026,9 @@ def replay_case(ctx, case):
     if fn in ('apply', 'focal_stats', 'convolution_2d', 'hotspots'):
         k = np.array(g('kernel'), dtype=case.get('kdtype', 'float64'))
     if fn == 'apply':
-        run_apply(ctx, pend, a, dtype, k, case['func'])
+        run_apply(ctx, pend, a, dtype, k, case['func'], chunks=case.get('dask_chunks'))
     elif fn == 'focal_stats':
-        run_stats(ctx, pend, a, dtype, k, case['stats'])
+        run_stats(ctx, pend, a, dtype, k, case['stats'], chunks=case.get('dask_chunks'))
     elif fn == 'mean':
         run_mean(ctx, pend, a, dtype, case['passes'], g('excludes'))
     elif fn == 'convolution_2d':
